@@ -100,4 +100,12 @@ example : lateLine 4 1 0 [3, 3, 3, 3, 3, 3, 3, 3] [3, 4, 5, 6, 7, 8, 9, 10] = no
 example : servedCycles (.user 2) 0 [.start, .cycle 1, .tInput (.user 1) "a", .cycle 2, .tInput (.user 2) "x",
     .tIt (.user 2) "s" "y"] = [2, 2] := by decide
 
+-- clause sweep: the same object's reset() twice in one tick (the sweep spins); once per tick is fine, also together with
+-- its clean_up(); the verdict survives a cut-off trace
+example : clauseSweep [.start, .cycle 1, .tReset (.obj 1), .xErr "o1", .meh false "boom o1", .tReset (.obj 1)] ≠ [] := by decide
+example : clauseSweep [.start, .tReset (.obj 1), .cycle 1, .tReset (.obj 1), .tCleanup (.obj 1), .tReset (.obj 2), .cycle 2,
+    .tReset (.obj 1)] = [] := by decide
+example : (judgeEv {} [.start, .cycle 1, .tReset (.obj 1), .xErr "o1", .meh false "boom o1", .tReset (.obj 1),
+    .crash "trace-truncated"]).length = 2 := by decide
+
 end NV.C09
